@@ -11,6 +11,10 @@ targets are untouched because nothing is written there). What this front end add
     here (a typing precondition exactly like an annotation in the source; any other unannotated parameter is still rejected);
   * `isclose(x, y)` with two positional arguments, accepted only if the module binds the name by `from math import isclose`
     and nothing else: -> py_isclose (coq/Base/PyNumMath.v: |x - y| <= 1e-9 * max(|x|, |y|), exact rationals).
+Both versions of the boundary tests of level_to_num_points_1d are inside the subset: math.isclose(start, a) / end == b (up to
+/repo f7c3775) and the inherited helper methods Grid1d.touches_lower_boundary / touches_upper_boundary (domain-relative tolerance,
+fixes/C08-boundary-tests-domain-relative.patch), which the shared translator resolves through the MRO and emits as
+TrapezoidalGrid1D_touches_*_boundary; Proofs/GenTrapGrid1DEq.v proves the same statements with one script on both.
 Usage: py2gallina_c02.py [--repo DIR] [--out FILE] [--stdout]      (VERIF_REPO is respected like in the shared translator)"""
 import ast
 import os
